@@ -499,10 +499,14 @@ def _proposals(prog):
             continue
         pname = call.args[0].id
         for st_ in ast.walk(pts):
+            val_ = st_.value if isinstance(st_, ast.Assign) else None
+            # the fold into the bounds may be applied in the same statement: self.process_proposal(current + step)
+            while isinstance(val_, ast.Call) and U(val_.func) in ("self.process_proposal", "self.bounds.reflect", "self.pass_through") and len(val_.args) == 1:
+                val_ = val_.args[0]
             if isinstance(st_, ast.Assign) and len(st_.targets) == 1 and isinstance(st_.targets[0], ast.Name) and st_.targets[0].id == pname \
-                    and st_.lineno < call.lineno and isinstance(st_.value, ast.BinOp) and isinstance(st_.value.op, ast.Add):
+                    and st_.lineno < call.lineno and isinstance(val_, ast.BinOp) and isinstance(val_.op, ast.Add):
                 n_p += 1
-                sides = [st_.value.left, st_.value.right]
+                sides = [val_.left, val_.right]
                 cur = [x for x in sides if isinstance(x, ast.Name)]
                 if len(cur) != 1:
                     continue
@@ -511,7 +515,9 @@ def _proposals(prog):
                        (isinstance(x, ast.Attribute) and U(x) in ("self.theta",)) or (isinstance(x, ast.Call) and U(x.func) == "self.get_last")]
                 if dep:
                     why_p.append(f"line {st_.lineno}: the step `{U(step)[:80]}` depends on the current point `{dep[0]}`")
-    out.append(struct_ob("symmetric-proposal", qual(pcc, pts) + "[step-independent-of-position]", n_p >= 1 and not why_p,
+    if n_p == 0:
+        raise AnalysisError(f"symmetric-proposal: the statement that builds the PCA proposal (current point + step) is not recognised in {qual(pcc, pts)} - not decided")
+    out.append(struct_ob("symmetric-proposal", qual(pcc, pts) + "[step-independent-of-position]", not why_p,
                          "the PCA proposal must be current point + a step drawn independently of the current point: " + "; ".join(why_p[:2]),
                          pcc.module.relpath, pts.lineno, tier="F"))
     pc = prog.cls("Parameter")
